@@ -67,6 +67,9 @@ func KitchenSink() []*Doc {
 		d.Paths["/pets/mine"] = &PathItem{Get: &Operation{Security: &[]map[string][]string{{"bearer": {}}}, Responses: map[string]*Response{"200": {Description: Str("ok"), Content: JSONContent(&Schema{Type: "array", Items: str})}}}}
 		d.Paths["/"] = &PathItem{Get: MinimalOp()}
 		d.Paths["/files/"] = &PathItem{Get: MinimalOp()}
+		// a constant segment with multi-byte characters in front of variables
+		d.Paths["/caf\u00e9/{id}"] = &PathItem{Get: &Operation{Parameters: []*Parameter{{Name: "id", In: "path", Required: true, Schema: &Schema{Type: "integer"}}}, Responses: EmptyResponses()}}
+		d.Paths["/caf\u00e9/{id}/\u65e5\u672c/{item}"] = &PathItem{Get: &Operation{Parameters: []*Parameter{{Name: "id", In: "path", Required: true, Schema: &Schema{Type: "string"}}, {Name: "item", In: "path", Required: true, Schema: &Schema{Type: "string"}}}, Responses: EmptyResponses()}}
 		// open objects as whole bodies: declared required + optional properties beside
 		// additionalProperties (true / typed)
 		d.Components.Schemas["Labels"] = &Schema{Type: "object", Properties: map[string]*Schema{"name": {Type: "string"}, "tag": {Type: "string"}, "note": {Type: "string", Nullable: true}}, Required: []string{"name"}, AdditionalProperties: &AddProps{Bool: Bool(true)}}
